@@ -611,7 +611,48 @@ func runC08(c *Ctx) {
 	n := sizes(c, 4000, 80000)
 	k := AdmitKnobs{FaultPct: 0, SynPct: 50, SubPct: 5}
 	r2 := NewRng(c.Seed + 77)
+	c08Oracle = func(a *AdmitCase, g AdmitOut) { c08Check(c, NewRng(c.Seed+78), a, g) }
+	// a second, directed sweep when the first is done (see the end of this function): pods that MEET restricted and VIOLATE
+	// baseline at the same version — os=windows pods from v1.25 on, with a capability or seccomp setting the restricted
+	// revisions exempt and the baseline controls (overridden at restricted) do not — under every assignment of restricted /
+	// baseline to the three modes at one version: a result for one level says nothing about another level
+	defer func() {
+		admitSweep(c, sizes(c, 240, 4000), AdmitKnobs{FaultPct: 0, SynPct: 0, SubPct: 0}, "allowed warnings audit evalCalls", "allowed nwarnings auditPresence", c08Oracle, func(r *Rng, a *AdmitCase) {
+			if a.Obj.Pod == nil {
+				return
+			}
+			p := a.Obj.Pod
+			p.Spec.OS = &corev1.PodOS{Name: corev1.Windows}
+			p.Spec.SecurityContext = &corev1.PodSecurityContext{RunAsNonRoot: bp(true)}
+			p.Spec.HostNetwork, p.Spec.HostPID, p.Spec.HostIPC, p.Spec.Volumes, p.Annotations, p.Spec.HostUsers = false, false, false, nil, nil, nil
+			p.Spec.InitContainers, p.Spec.EphemeralContainers = nil, nil
+			p.Spec.Containers = []corev1.Container{{Name: "w", Image: "img", SecurityContext: &corev1.SecurityContext{}}}
+			switch r.Intn(3) {
+			case 0:
+				p.Spec.Containers[0].SecurityContext.Capabilities = &corev1.Capabilities{Add: []corev1.Capability{"SYS_ADMIN"}}
+			case 1:
+				p.Spec.Containers[0].SecurityContext.SeccompProfile = &corev1.SeccompProfile{Type: "Unconfined"}
+			default:
+				p.Spec.Containers[0].SecurityContext.Capabilities = &corev1.Capabilities{Add: []corev1.Capability{"NET_RAW"}, Drop: []corev1.Capability{"ALL"}}
+			}
+			a.Old, a.Op = ObjSpec{}, admissionv1.Create
+			a.ExNS, a.ExUsers, a.ExRC = nil, nil, nil
+			ver := pick(r, []string{"latest", "v1.25", "v1.30", "v1.24"})
+			lv := [][3]string{{"restricted", "baseline", "baseline"}, {"restricted", "restricted", "baseline"}, {"restricted", "baseline", "restricted"}, {"privileged", "restricted", "baseline"}, {"baseline", "restricted", "baseline"}}[r.Intn(5)]
+			a.NSLabels = map[string]string{api.EnforceLevelLabel: lv[0], api.AuditLevelLabel: lv[1], api.WarnLevelLabel: lv[2], api.EnforceVersionLabel: ver, api.AuditVersionLabel: ver, api.WarnVersionLabel: ver}
+			a.Tags = append(a.Tags, "c08.windowsMeetsRestrictedViolatesBaseline")
+		})
+	}()
 	admitSweep(c, n, k, "allowed warnings audit evalCalls", "allowed nwarnings auditPresence", func(a *AdmitCase, g AdmitOut) {
+		c08Check(c, r2, a, g)
+	}, nil)
+}
+
+// c08Oracle: the property's own words on one answer (used by the directed sweep)
+var c08Oracle func(a *AdmitCase, g AdmitOut)
+
+func c08Check(c *Ctx, r2 *Rng, a *AdmitCase, g AdmitOut) {
+	{
 		if a.Res == "namespaces" || a.Res == "configmaps" {
 			return
 		}
@@ -675,7 +716,7 @@ func runC08(c *Ctx) {
 		if g2.Allowed != g.Allowed {
 			c.Violate(Finding{Desc: "changing only the audit/warn labels changed the verdict", Key: "blocking", Input: J{"a": in, "b": b.opJSON()}})
 		}
-	}, nil)
+	}
 }
 
 // ---------------------------------------------------------------- C09
@@ -731,7 +772,7 @@ func runC09(c *Ctx) {
 	webhookMixed(c, sizes(c, 320, 6000), "ctl", ns, newAdm)
 	n := sizes(c, 3000, 60000)
 	k := AdmitKnobs{Kind: "ctl", FaultPct: 5, SynPct: 40, SubPct: 10}
-	admitSweep(c, n, k, "allowed code warnings audit ann evalCalls metrics", "allowed code nwarnings auditPresence", func(a *AdmitCase, g AdmitOut) {
+	oracle := func(a *AdmitCase, g AdmitOut) {
 		in := a.opJSON()
 		if !g.Allowed {
 			c.Violate(Finding{Desc: "pod-controller request denied", Key: "controller-denied", Input: in, Go: g})
@@ -787,7 +828,32 @@ func runC09(c *Ctx) {
 			c.Violate(Finding{Desc: fmt.Sprintf("controller %s reports different findings than the equivalent bare pod: warnings %q vs %q, audit %s vs %s", a.Res, ga.Warnings, gb.Warnings, sptr(ga.AnnAudit), sptr(gb.AnnAudit)), Key: "findings-differ", Input: J{"controller": a2.opJSON(), "pod": b.opJSON()}})
 		}
 		c.Tag("c09.comparedWithBarePod")
-	}, nil)
+	}
+	admitSweep(c, n, k, "allowed code warnings audit ann evalCalls metrics", "allowed code nwarnings auditPresence", oracle, nil)
+	// directed: templates of an unusual SHAPE — no containers at all (neither regular nor init nor ephemeral) while the violation
+	// sits outside the container lists (host namespaces, a hostPath volume, pod-level settings, annotations); a template is a
+	// template however little it contains
+	admitSweep(c, sizes(c, 200, 3000), AdmitKnobs{Kind: "ctl", FaultPct: 0, SynPct: 0, SubPct: 0}, "allowed code warnings audit ann evalCalls metrics", "allowed code nwarnings auditPresence", oracle, func(r *Rng, a *AdmitCase) {
+		if a.Obj.Kind != "controller" || a.Obj.Pod == nil || a.Obj.NoTemplate {
+			return
+		}
+		p := a.Obj.Pod
+		p.Spec.Containers, p.Spec.InitContainers, p.Spec.EphemeralContainers = nil, nil, nil
+		switch r.Intn(4) {
+		case 0:
+			p.Spec.HostNetwork = true
+		case 1:
+			p.Spec.Volumes = []corev1.Volume{{Name: "host", VolumeSource: corev1.VolumeSource{HostPath: &corev1.HostPathVolumeSource{Path: "/"}}}}
+		case 2:
+			p.Spec.SecurityContext = &corev1.PodSecurityContext{Sysctls: []corev1.Sysctl{{Name: "kernel.msgmax", Value: "1"}}}
+		default:
+			p.Annotations = map[string]string{"seccomp.security.alpha.kubernetes.io/pod": "unconfined", "container.apparmor.security.beta.kubernetes.io/x": "unconfined"}
+		}
+		if a.Old.Kind == "controller" && a.Old.Pod != nil {
+			a.Old.Pod = p.DeepCopy()
+		}
+		a.Tags = append(a.Tags, "c09.templateWithoutContainers")
+	})
 }
 
 // ---------------------------------------------------------------- C10
@@ -1155,6 +1221,15 @@ func runC12(c *Ctx) {
 // ---------------------------------------------------------------- C18 (admission part)
 
 func runC18(c *Ctx) {
+	// counted when and only when REPORTED: through the webhook handler (the last place where what is reported is decided), for
+	// the classes of user a control plane really has — the answer must carry every warning the library decided on
+	defer func() {
+		saved := mixedUsers
+		mixedUsers = []string{"system:kube-controller-manager", "system:serviceaccount:kube-system:replicaset-controller", "system:node:node-1", "system:serviceaccount:team:builder", "system:admin"}
+		ns, newAdm := webhookFixture()
+		webhookMixed(c, sizes(c, 360, 6000), "", ns, newAdm)
+		mixedUsers = saved
+	}()
 	n := sizes(c, 4000, 80000)
 	k := AdmitKnobs{FaultPct: 15, SynPct: 60, SubPct: 12}
 	admitSweep(c, n, k, "allowed ann audit metrics nwarnings", "metrics", func(a *AdmitCase, g AdmitOut) {
